@@ -84,6 +84,17 @@ func (b *gbuilder) term(e ast.Expr, fr *core.Frame) (string, bool) {
 					return t, true
 				}
 			}
+			// a local of the enclosing function that is assigned exactly once, from a chain of field
+			// selections (k, key := r.k, r.key), and is used inside one of its closures: it stands for
+			// that chain (the closure may be walked on its own, without the assignment on the path)
+			if e2, fr2, ok := capturedFieldAlias(b.c, v); ok && b.depth < 6 {
+				b.depth++
+				t, ok := b.term(e2, fr2)
+				b.depth--
+				if ok {
+					return t, true
+				}
+			}
 			return b.c.Role(v), true
 		}
 	case *ast.SelectorExpr:
@@ -190,6 +201,12 @@ func (b *gbuilder) build(e ast.Expr, fr *core.Frame) *formula {
 		}
 		if v := identVar(x, fr); v != nil {
 			if d, ok := b.defs[v]; ok && b.usable(d) && b.depth < 6 && isBasic(v.Type(), types.IsBoolean) && d.expr != nil {
+				if d.retAt > 0 && b.g != nil {
+					// the boolean came out of a helper walked in place (delay, retry := r.next()): it is
+					// what the helper returned, read with the definitions in force at that return
+					sub := &gbuilder{c: b.c, defs: b.g.defs[d.retAt], sec: b.g.sec[d.retAt], g: b.g, depth: b.depth + 1}
+					return sub.build(d.expr, d.fr)
+				}
 				b.depth++
 				f := b.build(d.expr, d.fr)
 				b.depth--
@@ -369,8 +386,8 @@ func prepare(c *Ctx, p *core.Path) *gpath {
 				}
 			}
 		case core.KReturn:
-			if ev.Frame.Call != nil && ev.Frame.Fn != nil && ev.Frame.CS == nil {
-				g.rets[ev.Frame.Call] = i
+			if ev.Frame.Call != nil && (ev.Frame.Fn != nil || ev.Frame.Lit != nil) && ev.Frame.CS == nil {
+				g.rets[ev.Frame.Call] = i // a declared function or a local closure walked in place
 			}
 		case core.KBranch:
 			gb := &gbuilder{c: c, defs: cur, sec: g.sec[i], g: g}
@@ -402,6 +419,21 @@ func prepare(c *Ctx, p *core.Path) *gpath {
 							delete(cur, k)
 						}
 					}
+				}
+			}
+			if v := identVar(ev.Lhs, ev.Frame); v != nil && !v.IsField() && ev.RetEv != nil && isBasic(v.Type(), types.IsBoolean) && (ev.Tok == token.ASSIGN || ev.Tok == token.DEFINE) {
+				// a boolean result of a function walked in place
+				ri := -1
+				for k := i - 1; k >= 0; k-- {
+					if p.Events[k] == ev.RetEv {
+						ri = k
+						break
+					}
+				}
+				if re, _ := retResult(ev.RetEv, ev.RhsIdx); re != nil && ri > 0 {
+					cur = clone()
+					cur[v] = localDef{expr: re, fr: ev.RetEv.Frame, sec: g.sec[i], retAt: ri}
+					break
 				}
 			}
 			if v := identVar(ev.Lhs, ev.Frame); v != nil && !v.IsField() {
@@ -834,6 +866,17 @@ func aliasOf(p *core.Path, at *core.Event, e ast.Expr) *types.Var {
 				i++
 			}
 		}
+		// the receiver of an inlined method stands for the receiver expression at the call site
+		if !found && fr.Decl != nil && fr.Decl.Recv != nil && len(fr.Decl.Recv.List) == 1 {
+			for _, n := range fr.Decl.Recv.List[0].Names {
+				if fr.Info().Defs[n] == types.Object(v) {
+					if rx := callRecv(fr.Call); rx != nil {
+						v = identVar(rx, fr.Parent)
+						found = true
+					}
+				}
+			}
+		}
 		if !found {
 			continue // not a parameter of this frame: it may be one of an enclosing frame (a captured parameter)
 		}
@@ -1198,4 +1241,94 @@ func (g *gpath) callsFieldAt(i int, field string) bool {
 	}
 	t, ok := g.builderAt(i).term(ev.Call.Fun, ev.Frame)
 	return ok && t == field
+}
+
+// capturedFieldAlias: v is a local of a declared function that is assigned exactly once in it, from a
+// pure chain of field selections rooted at the receiver or a parameter, never incremented or
+// address-taken, and captured by a literal of that function.
+func capturedFieldAlias(c *Ctx, v *types.Var) (ast.Expr, *core.Frame, bool) {
+	if v == nil || v.IsField() {
+		return nil, nil, false
+	}
+	key := "capAlias"
+	if c.cache[key] == nil {
+		c.cache[key] = map[*types.Var]ast.Expr{}
+	}
+	memo := c.cache[key].(map[*types.Var]ast.Expr)
+	d := c.Prog.EnclosingDecl(v.Pos())
+	if d == nil || d.Decl.Body == nil {
+		return nil, nil, false
+	}
+	if e, seen := memo[v]; seen {
+		return e, &core.Frame{Pkg: d.Pkg}, e != nil
+	}
+	memo[v] = nil
+	info := d.Pkg.TypesInfo
+	captured := false
+	for _, vs := range core.EscapesOf(c.Prog, d).Captured {
+		for _, cv := range vs {
+			if cv == v {
+				captured = true
+			}
+		}
+	}
+	if !captured {
+		return nil, nil, false
+	}
+	var rhs ast.Expr
+	n, bad := 0, false
+	ast.Inspect(d.Decl.Body, func(x ast.Node) bool {
+		switch s := x.(type) {
+		case *ast.AssignStmt:
+			for i, l := range s.Lhs {
+				if id, ok := l.(*ast.Ident); ok && info.ObjectOf(id) == types.Object(v) {
+					n++
+					if len(s.Lhs) == len(s.Rhs) && (s.Tok == token.DEFINE || s.Tok == token.ASSIGN) {
+						rhs = s.Rhs[i]
+					} else {
+						bad = true
+					}
+				}
+			}
+		case *ast.IncDecStmt:
+			if id, ok := s.X.(*ast.Ident); ok && info.ObjectOf(id) == types.Object(v) {
+				bad = true
+			}
+		case *ast.UnaryExpr:
+			if s.Op == token.AND {
+				if id, ok := unparen(s.X).(*ast.Ident); ok && info.ObjectOf(id) == types.Object(v) {
+					bad = true
+				}
+			}
+		case *ast.RangeStmt:
+			for _, l := range []ast.Expr{s.Key, s.Value} {
+				if id, ok := l.(*ast.Ident); ok && info.ObjectOf(id) == types.Object(v) {
+					bad = true
+				}
+			}
+		}
+		return true
+	})
+	if bad || n != 1 || rhs == nil {
+		return nil, nil, false
+	}
+	// a pure chain x.f.g rooted at an identifier
+	e := unparen(rhs)
+	depth := 0
+	for {
+		sel, ok := e.(*ast.SelectorExpr)
+		if !ok {
+			break
+		}
+		if fieldVar(sel, &core.Frame{Pkg: d.Pkg}) == nil {
+			return nil, nil, false
+		}
+		e = unparen(sel.X)
+		depth++
+	}
+	if _, ok := e.(*ast.Ident); !ok || depth == 0 {
+		return nil, nil, false
+	}
+	memo[v] = rhs
+	return rhs, &core.Frame{Pkg: d.Pkg}, true
 }
